@@ -95,6 +95,8 @@ func (c *FuncCtx) eval0(st *State, e ast.Expr) Value {
 		case *ast.CallExpr:
 			if tv, ok := c.info.Types[n.Fun]; ok && tv.IsType() {
 				opaque = true
+			} else if f, ok := c.calleeObj(n).(*types.Func); ok && f.Pkg() != nil && f.Pkg().Path() == "math" {
+				opaque = true
 			}
 		}
 		if opaque {
@@ -853,6 +855,10 @@ func (c *FuncCtx) execIf(fr *frame, n *ast.IfStmt, st *State, k func(*State)) {
 	run := func(st *State) {
 		cond := asBool(c.eval(st, n.Cond))
 		simple := !containsJump(n.Body) && (n.Else == nil || !containsJump(n.Else))
+		if simple && (assignsField(n.Body) || (n.Else != nil && assignsField(n.Else))) {
+			// a struct field assigned in a branch: the two outcomes are explored as separate paths
+			simple = false
+		}
 		if cond.IsTrue() {
 			c.execBlock(fr, n.Body.List, st, after)
 			return
@@ -1202,4 +1208,20 @@ func (c *FuncCtx) intOperandsKey(st *State, e ast.Expr) string {
 		key = fmt.Sprintf("$h%x", h.Sum64())
 	}
 	return key
+}
+
+// assignsField: the statement assigns to a selector expression (a struct field).
+func assignsField(n ast.Node) bool {
+	found := false
+	ast.Inspect(n, func(m ast.Node) bool {
+		if as, ok := m.(*ast.AssignStmt); ok {
+			for _, l := range as.Lhs {
+				if _, ok := stripParens(l).(*ast.SelectorExpr); ok {
+					found = true
+				}
+			}
+		}
+		return !found
+	})
+	return found
 }
